@@ -1219,11 +1219,12 @@ def to_digits_exp(s, dps):
     exp_from_1 = exp + bc
     if abs(exp_from_1) > 3500:
         from .libelefun import mpf_ln2, mpf_ln10
-        # Set b = int(exp * log(2)/log(10))
+        # Set b = int((exp+bc) * log(2)/log(10)), so that s / 10^b is of
+        # order one whatever the length of the mantissa.
         # If exp is huge, we must use high-precision arithmetic to
         # find the nearest power of ten
-        expprec = bitcount(abs(exp)) + 5
-        tmp = from_int(exp)
+        expprec = bitcount(abs(exp_from_1)) + 5
+        tmp = from_int(exp_from_1)
         tmp = mpf_mul(tmp, mpf_ln2(expprec))
         tmp = mpf_div(tmp, mpf_ln10(expprec), expprec)
         b = to_int(tmp)
@@ -1236,6 +1237,21 @@ def to_digits_exp(s, dps):
             digits, exponent = _floor_digits(mpf_div(s, p2, wp, round_floor), dps, bitprec)
             digits2, exponent2 = _floor_digits(mpf_div(s, p1, wp, round_ceiling), dps, bitprec)
             if exponent2 == exponent and digits2[:dps] == digits[:dps]:
+                break
+            if wp > 4*(bc + 4*abs(b) + bitprec):
+                # The two ends keep straddling a dps-digit decimal D: s is
+                # D itself or extremely close to it. Compare exactly.
+                # D = N * 10^e10 is the decimal that the upper end reached
+                N = int(digits2[:dps].ljust(dps, '0'))
+                e10 = exponent2 - (dps-1) + b
+                lhs = man << max(exp, 0)
+                rhs = N << max(-exp, 0)
+                if e10 >= 0:
+                    rhs *= 10**e10
+                else:
+                    lhs *= 10**(-e10)
+                if lhs >= rhs:
+                    digits, exponent = digits2, exponent2
                 break
             wp *= 2
         exponent += b
